@@ -84,7 +84,12 @@ func Check(r *ev.Run, replay string) {
 	partA(r, nA)
 	partB(r, nB)
 	partC(r, nC)
-	r.Set("rule", fmt.Sprintf("every path string with 0..N segments over the 7-segment alphabet x leading/trailing separator; A: ResolvePath x 4 bases (N=%d); B: localfs x 14 operations x 3 bases on a real tree (N=%d; two-path ops: every path in each position against fixed partners + all pairs over short paths); C: VirtualOS x 7 mount tables x 4 cwds x 14 operations with recording filesystems (N=%d). distinct = distinct (part, operation, outcome class, resolved location) tuples", nA, nB, nC))
+	nD := 3
+	if r.Thorough() {
+		nD = 4
+	}
+	partD(r, nD)
+	r.Set("rule", fmt.Sprintf("every path string with 0..N segments over the 7-segment alphabet x leading/trailing separator; A: ResolvePath x 4 bases (N=%d); B: localfs x 14 operations x 3 bases on a real tree (N=%d; two-path ops: every path in each position against fixed partners + all pairs over short paths); C: VirtualOS x 7 mount tables x 4 cwds x 14 operations with recording filesystems (N=%d); D: every history of <= %d steps over {Stat, Remove, Rename on 4 relative and 1 absolute path, Chdir to 5 directories} on one VirtualOS per mount table, each step judged against the working directory of that moment. distinct = distinct (part, operation, outcome class, resolved location) tuples", nA, nB, nC, nD))
 }
 
 // ---------------------------------------------------------------- part A
@@ -596,6 +601,18 @@ func replayOne(r *ev.Run, path string) {
 		r.Eval(1)
 		if len(log) > 0 && !strings.HasPrefix(log[0], wm+"|") {
 			r.Report("virtualos-wrong-mount", "wrong mount on replay", in, log[0], wm)
+		}
+	case "D":
+		var c caseD
+		if err := ev.ReadReplay(path, &c); err != nil {
+			r.EngineError("replay: " + err.Error())
+			return
+		}
+		sig, what := runD(c.Mounts, c.Steps, true)
+		fmt.Printf("oracle: %s %s\n", sig, what)
+		r.Eval(1)
+		if sig != "" {
+			r.Report(sig, what, c, what, "")
 		}
 	default:
 		fmt.Println("part B replays: re-run the check; the case is listed in the replay file")
